@@ -7,12 +7,15 @@ from vlib import *
 
 TRACE_CFG = "BurnRedirectTrace.cfg"
 DEFECTS = ["staking_plain_bank", "gov_plain_bank", "no_feepool_update", "bonded_only", "redirect_all", "bond_denom_only",
-           "gate_send_enabled", "gate_community_tax", "gate_deposit_denoms"]
+           "gate_send_enabled", "gate_community_tax", "gate_deposit_denoms", "gate_network"]
+# the chain id the driver runs a network of the model as (the epoch number after the dash is free)
+NET_IDS = {"main": "haqq_11235-1", "testedge1": "haqq_53211-1", "testedge2": "haqq_54211-3", "local": "haqq_121799-1",
+           "other": "haqq_7777-2"}
 SIM_AMT = "25000000000000000007"
 
 MANIFEST_ENTRY = dict(engine="BurnRedirect", design="§4 C14",
    technique="TLA+ spec BurnRedirect.tla: TLC exhaustive model checking of the redirect equations over sequences of slashes, deposit burns and control burns; TLC-simulated behaviours executed as full ABCI block histories on the real application (downtime through absent votes, double signs through duplicate-vote evidence, gov transactions and block time, parameter changes through passed proposals that carry the modules' authority messages); every BeginBlock, transaction and EndBlock validated by TLC against the property layer (trace validation)",
-   text="Exhaustive TLC model checking of the design (all sequences of up to 5 events over double-sign and downtime slashes of 2 validators with bonded, unbonding and redelegating stake, proposals vetoed / expired / without quorum / rejected with deposits in 1-2 denominations, burns by erc20 / liquidvesting / evm, and one change of a chain parameter: bank send-enabled per denomination and default, community tax 0 / 2 % / 1, the three gov burn switches, the deposit denominations, the erc20 switch) proves on the model that a slash or deposit burn leaves the supply unchanged and moves exactly the destroyed amount into the community pool and the distribution account while other modules' burns reduce the supply, and that each of nine mis-wirings of the bank wrapper (three of them make the redirect depend on a parameter: real burn while sending is disabled, while the community tax is zero, for non-deposit denominations) breaks these equations; the binding to the code is two-way: TLC-generated behaviours and seeded random histories are executed through InitChain/BeginBlock/DeliverTx/EndBlock/Commit of the real app with real slashing, evidence, staking, gov and distribution modules, from default and non-default genesis parameters and across parameter changes executed by gov, and TLC checks the equations around every single BeginBlock, transaction and EndBlock, taking the destroyed amount from the staking and gov records (never from the bank); the property layer never reads the parameters, and the run is vacuous unless slashes and deposit burns were checked while sending was disabled, with community tax 0 and 1, with erc20 disabled and for non-deposit denominations.",
+   text="Exhaustive TLC model checking of the design (all sequences of up to 5 events over double-sign and downtime slashes of 2 validators with bonded, unbonding and redelegating stake, proposals vetoed / expired / without quorum / rejected with deposits in 1-2 denominations, burns by erc20 / liquidvesting / evm, and one change of a chain parameter: bank send-enabled per denomination and default, community tax 0 / 2 % / 1, the three gov burn switches, the deposit denominations, the erc20 switch; and, in a configuration of its own, every network the code base knows by name - main, TestEdge1, TestEdge2, local - or an unknown one, with histories that start at height 1 or later) proves on the model that a slash or deposit burn leaves the supply unchanged and moves exactly the destroyed amount into the community pool and the distribution account while other modules' burns reduce the supply, and that each of ten mis-wirings of the bank wrapper (four of them make the redirect depend on the environment: real burn while sending is disabled, while the community tax is zero, for non-deposit denominations, on the test networks below a height) breaks these equations; the binding to the code is two-way: TLC-generated behaviours and seeded random histories are executed through InitChain/BeginBlock/DeliverTx/EndBlock/Commit of the real app with real slashing, evidence, staking, gov and distribution modules, from default and non-default genesis parameters and across parameter changes executed by gov, under the chain ids of the main network, the two test networks, the local network and an unlisted network (chain id of the application, of InitChain and of every block header; transactions signed for it) and with genesis initial heights 1, 2, 1 000 000 and 5 000 000, and TLC checks the equations around every single BeginBlock, transaction and EndBlock, taking the destroyed amount from the staking and gov records (never from the bank); the property layer never reads the parameters, the chain id or the height, and the run is vacuous unless slashes and deposit burns were checked while sending was disabled, with community tax 0 and 1, with erc20 disabled, for non-deposit denominations, on each of the five networks and in histories that start above height 1.",
    note="Bounded by the constants in specs/BurnRedirect_*.cfg and by the sampled histories; the destroyed amount of a slash is the loss of validator tokens plus unbonding-entry balances between the projections before and after BeginBlock, that of a deposit burn is the deposit records of the proposals the gov queues and gov's own Tally (run on a discarded cache context) say end with a burn; fee allocation, reward pay-outs reported by distribution events and the coinomics mint of the same ABCI call are subtracted; CometBFT itself is not run (votes and evidence are fed through ABCI); TLC, the Json community module and the BigNum override are trusted.")
 
 
@@ -47,6 +50,11 @@ def to_scripts(behaviours, seed):
     out = []
     for i, ops in enumerate(behaviours):
         cfg = script_cfg(seed * 1000 + i)
+        # the first entry of a behaviour is the network and the first height the model chose in Init
+        if not ops or ops[0].get("op") != "chain":
+            raise Infra("behaviour without chain entry")
+        cfg["chainId"], cfg["initialHeight"] = NET_IDS[ops[0]["net"]], ops[0]["h0"]
+        ops = ops[1:]
         pr = GENESIS_PARAMS[i % len(GENESIS_PARAMS)]
         if pr:
             cfg["params"] = pr
@@ -81,7 +89,10 @@ FLOORS = ["hit:doubleSign:bonded", "hit:doubleSign:unbonding", "hit:doubleSign:r
 # (BurnRedirect!EnvClasses evaluated on the logged parameters before the call)
 ENV_FLOORS = {"paramchange": 5, "slash/sendOff": 3, "deposit-burn/sendOff": 2, "slash/tax0": 1, "slash/tax1": 1,
               "deposit-burn/tax0": 1, "deposit-burn/tax1": 1, "slash/erc20Off": 1, "deposit-burn/erc20Off": 1,
-              "deposit-burn/nonDepositDenom": 1}
+              "deposit-burn/nonDepositDenom": 1,
+              "slash/net:main": 2, "slash/net:testedge1": 2, "slash/net:testedge2": 2, "slash/net:local": 2, "slash/net:other": 2,
+              "deposit-burn/net:main": 1, "deposit-burn/net:testedge1": 1, "deposit-burn/net:testedge2": 1,
+              "deposit-burn/net:local": 1, "deposit-burn/net:other": 1, "slash/lateStart": 3, "deposit-burn/lateStart": 2}
 
 
 def run(c):
@@ -100,6 +111,10 @@ def run(c):
         c.add_tlc("BurnRedirect_intended_params_thorough.cfg", r)
     r = tlc_exhaustive(wd, "BurnRedirect.tla", "BurnRedirect_intended_refund.cfg", workers=4, timeout=1500)
     c.add_tlc("BurnRedirect_intended_refund.cfg", r)
+    # every network x first height (the other configurations run as the main network from height 1)
+    ncfg = "BurnRedirect_intended_networks.cfg" if quick else "BurnRedirect_intended_networks_thorough.cfg"
+    r = tlc_exhaustive(wd, "BurnRedirect.tla", ncfg, workers=4 if quick else 6, timeout=3000)
+    c.add_tlc(ncfg, r)
     for d in DEFECTS:
         r = tlc_exhaustive(wd, "BurnRedirect.tla", "BurnRedirect_defect_%s.cfg" % d, must="fail", workers=2, timeout=900)
         c.add_tlc("BurnRedirect_defect_%s.cfg" % d, r)
@@ -171,7 +186,7 @@ def run(c):
             if kind and kind not in seen:
                 seen.add(kind)
                 p = o["post"]
-                c.samples.append({"ev": o["ev"], "env": {k: v for k, v in p["env"].items() if k in ("sendDefault", "send", "tax", "minDep", "erc20")},
+                c.samples.append({"ev": o["ev"], "env": {k: v for k, v in p["env"].items() if k in ("chainId", "h0", "sendDefault", "send", "tax", "minDep", "erc20")},
                                   "args": {k: v for k, v in o["args"].items() if k in ("h", "k", "module", "burn", "evidence", "absent")},
                                   "rep": o["rep"], "post_supply": p["supply"], "post_community": p["community"],
                                   "post_distrBal": p["distrBal"], "post_pools": [p["bonded"], p["notBonded"]]})
@@ -207,6 +222,7 @@ def run(c):
         "the state before a BeginBlock is the projection after the previous EndBlock (Commit changes nothing); projections read the real stores through bank, staking, distribution and gov keepers",
         "votes, absent validators and duplicate-vote evidence are fed through ABCI RequestBeginBlock to the real slashing and evidence modules; CometBFT is not run",
         "the configuration (env) of a line is read from the parameter stores of bank, distribution, gov, erc20 and slashing after the call; parameter changes are made by proposals with the module's authority message and the minimum deposit in force, voted yes by all validators and executed by gov's EndBlock (the end of the voting period also ends the other proposals that are due); the model bounds the number of parameter changes per behaviour (MaxParamChanges)",
+        "the network of a line is the chain id of the block context (application option, InitChain and every header carry the chain id of the scenario), classified by the code's own predicates utils.IsMainNetwork / IsTestEdge1Network / IsTestEdge2Network / IsLocalNetwork; five chain ids (haqq_11235-1, haqq_53211-1, haqq_54211-3, haqq_121799-1, haqq_7777-2) and four initial heights (1, 2, 1000000, 5000000) are sampled, other ids and heights are not",
         "exhaustive model checking is bounded by the constants in specs/BurnRedirect_*.cfg",
     ]
 
